@@ -6,7 +6,7 @@ CONSTANTS
   MaxRows = 4
   InitTables <- InitMC
   Depth = 14
-  Mode = "all"
+  Mode = "live"
 INIT GenInit
 NEXT GenNext
 CONSTRAINT Emit
